@@ -23,6 +23,12 @@ HARNESSES = {
     "send_send_resend": dict(pre=3, tasks=[("feed", "rr", 2), ("send", "x1"), ("send", "x2")]),
     "send_gap": dict(pre=0, tasks=[("feed", "gap"), ("send", "x1")]),
     "send_send_send": dict(pre=0, tasks=[("send", "x1"), ("send", "x2"), ("send", "x3")]),
+    # journal that ends with a session message: the reply to the ResendRequest ends with a GapFill
+    "send_resend_tail": dict(pre=2, tail_hb=True, tasks=[("feed", "rr", 2), ("send", "x1")]),
+    # initiator: first Logon and a Logout from another task (the only send allowed before the Logon reply)
+    "logon_logout": dict(pre=-2, tasks=[("logon",), ("logout",)]),
+    # transport failure while senders are parked in drain(), then one more sender
+    "send_send_fail": dict(pre=0, fail=True, tasks=[("send", "x1"), ("send", "x2"), ("send", "x3")]),
 }
 
 
@@ -30,7 +36,10 @@ def run_one(hname, s):
     from asyncfix import FIXMessage
 
     h = HARNESSES[hname]
-    w = World1("acceptor", S=CFG["S"], T=CFG["T"])
+    if h["pre"] == -2:
+        w = World1("initiator", S=CFG["S"], T=CFG["T"], logon_on_connect=False)
+    else:
+        w = World1("acceptor", S=CFG["S"], T=CFG["T"])
     try:
         c = w.c
         loop = w.loop
@@ -42,7 +51,11 @@ def run_one(hname, s):
                 if i == 1:
                     tags[43] = "N"  # an application message that spells out PossDupFlag=N
                 w.send(FIXMessage("D", tags))
+            if h.get("tail_hb"):
+                from asyncfix import FMsg
+                w.send(FIXMessage(FMsg.HEARTBEAT))
         base_frames = len(w.writer.out)
+        base_attempts = len(w.writer.attempts)
         parked = []
         state = {"pauses": 0}
 
@@ -75,9 +88,12 @@ def run_one(hname, s):
             if not w.writer.paused and state["pauses"] < 1 and (pending or started):
                 env_o.append("pause")
                 env_a.append(("pause",))
+            if h.get("fail") and not w.writer.broken and w.writer.waiters and not state.get("failed"):
+                env_o.append("fail")
+                env_a.append(("fail",))
             if not opts:
                 # nothing runnable: the environment moves (no deviation for the first enabled event)
-                live = [(o, a) for o, a in zip(env_o, env_a) if a[0] != "pause"]
+                live = [(o, a) for o, a in zip(env_o, env_a) if a[0] not in ("pause", "fail")]
                 if not live:
                     break
                 opts = [o for o, _ in live]
@@ -98,12 +114,21 @@ def run_one(hname, s):
             elif a[0] == "pause":
                 w.writer.pause()
                 state["pauses"] += 1
+            elif a[0] == "fail":
+                state["failed"] = True
+                w.writer.fail(ConnectionResetError)
             elif a[0] == "start":
                 i = a[1]
                 t = dict(pending)[i]
                 pending = [(j, x) for j, x in pending if j != i]
                 if t[0] == "send":
                     started[i] = loop.create_task(c.send_msg(FIXMessage("D", {11: t[1], 55: "X"})))
+                elif t[0] == "logon":
+                    from asyncfix import FMsg
+                    started[i] = loop.create_task(c.send_msg(FIXMessage(FMsg.LOGON, {98: 0, 108: 100000})))
+                elif t[0] == "logout":
+                    from asyncfix import FMsg
+                    started[i] = loop.create_task(c.send_msg(FIXMessage(FMsg.LOGOUT)))
                 elif t[0] == "testreq":
                     started[i] = loop.create_task(c.send_test_req())
                 elif t[0] == "feed":
@@ -127,7 +152,7 @@ def run_one(hname, s):
                 r = task_result(t)
                 results[i] = (r[0], type(r[1]).__name__ if r[0] == "exc" else None)
         frames = []
-        for raw in w.writer.out[base_frames:]:
+        for raw in (w.writer.attempts[base_attempts:] if h.get("fail") else w.writer.out[base_frames:]):
             f, err = refs.try_parse(raw)
             d = refs.fdict(f) if f else {"35": "?"}
             frames.append((d.get("35"), int(d.get("34", 0) or 0), d.get("43"), d.get("11"), d.get("36")))
@@ -186,6 +211,14 @@ def judge(hname, obs, s):
         got = [(n, cid) for (t, n, pd, cid, new) in obs["frames"] if pd == "Y" and t == "D"]
         if got[: len(want)] != want and [g for g in got if g in want] != want:
             return V("resend_reply_incomplete", "the reader services a ResendRequest completely while other tasks send", want=want, got=got)
+    # a GapFill tells the peer to skip numbers: it must never cover the number of a message sent as new here
+    new_numbers = {n for (t, n, pd, cid, new) in obs["frames"] if pd != "Y" and t != "4"}
+    for (t, n, pd, cid, new) in obs["frames"]:
+        if t == "4" and new is not None:
+            covered = [x for x in new_numbers if n <= x < int(new)]
+            if covered:
+                return V("gapfill_covers_new_message", "only retransmissions reuse a number (their own); a message sent meanwhile is not skipped over",
+                         gapfill=(n, new), covered=covered)
     refused = [i for i, (st, exc) in obs["results"].items() if exc is not None]
     for (t, n, pd, cid, new) in obs["frames"]:
         if pd != "Y" and t != "4" and n not in obs["rows"] and not refused:
